@@ -184,9 +184,14 @@ def build_cases(tier: str, seed: int) -> tuple[list[dict[str, Any]], dict[str, A
     if tier != "quick":
         reset_graphs += [([1, 2, 3], E) for E in g3[::4]]
     for ids, E in reset_graphs:
-        for mode in ("pos", "neg", "silent"):
+        for mode in ("pos", "neg", "silent", "pos-delayed"):
             for depth in ((2,) if tier == "quick" else (1, 2, 3)):
-                add("reset", ids, E, depth, [], False, reset=1, reset_mode=mode, tp=False)
+                if mode == "pos-delayed":
+                    for rd in (0.25, 0.35, 0.45):
+                        add("reset", ids, E, depth, [], False, reset=1, reset_mode=mode, tp=False, latency=0.1,
+                            reset_delay=rd)
+                else:
+                    add("reset", ids, E, depth, [], False, reset=1, reset_mode=mode, tp=False)
     info["reset"] = "--reset 1 against ECUs answering / refusing / silently performing the reset"
     # an ECU whose session changes take time: 0x78 first, the final answer 3 s later (within P2* = 5 s)
     for ids, E in reset_graphs:
